@@ -6,8 +6,16 @@ import subprocess
 import time
 
 ROOT = os.path.dirname(os.path.dirname(os.path.abspath(__file__)))
-TARGET = os.path.join(ROOT, "target")
-MIRI_TARGET = os.path.join(ROOT, "target", "miri")
+# VERIF_REPO_OVERRIDE=<dir>: build the monitors against another checkout of brood (used by
+# mutants/selftest.py for scratch worktrees with a seeded change) instead of /repo. Uses cargo's
+# `paths` override and a separate target directory; never used by the registered commands.
+OVERRIDE = os.environ.get("VERIF_REPO_OVERRIDE")
+TARGET = os.path.join(ROOT, "target") if not OVERRIDE else os.environ.get("VERIF_TARGET_DIR", os.path.join(ROOT, "target-" + os.path.basename(OVERRIDE.rstrip("/"))))
+MIRI_TARGET = os.path.join(TARGET, "miri")
+REPLAYS = os.path.join(ROOT, "replays") if not OVERRIDE else os.path.join(TARGET, "replays")
+EVIDENCE = os.path.join(ROOT, "evidence") if not OVERRIDE else os.path.join(TARGET, "evidence")
+NO_MIRI = bool(os.environ.get("VERIF_NO_MIRI"))
+CARGO_CONFIG = ["--config", 'paths=["%s"]' % OVERRIDE] if OVERRIDE else []
 MIRIFLAGS = "-Zmiri-tree-borrows -Zmiri-disable-isolation"
 RIG_PKG = {"r5": "rig_r5", "r9": "rig_r9", "r1": "rig_misc", "r0": "rig_misc"}
 
@@ -30,7 +38,7 @@ def cargo_build(packages, log, release=True, extra_env=None, toolchain=None, tar
     argv = ["cargo"]
     if toolchain:
         argv.append("+" + toolchain)
-    argv += ["build", "--offline"]
+    argv += ["build", "--offline"] + CARGO_CONFIG
     if release:
         argv.append("--release")
     for p in packages:
@@ -38,8 +46,7 @@ def cargo_build(packages, log, release=True, extra_env=None, toolchain=None, tar
     for b in bins or []:
         argv += ["--bin", b]
     env = base_env()
-    if target_dir:
-        env["CARGO_TARGET_DIR"] = target_dir
+    env["CARGO_TARGET_DIR"] = target_dir or TARGET
     if extra_env:
         env.update(extra_env)
     t0 = time.time()
@@ -57,7 +64,7 @@ def miri_warm(pkg, bin_, log):
     env = base_env()
     env["MIRIFLAGS"] = MIRIFLAGS
     env["CARGO_TARGET_DIR"] = MIRI_TARGET
-    argv = ["cargo", "+nightly", "miri", "run", "--offline", "-q", "-p", pkg, "--bin", bin_, "--", "info"]
+    argv = ["cargo", "+nightly", "miri", "run", "--offline", "-q"] + CARGO_CONFIG + ["-p", pkg, "--bin", bin_, "--", "info"]
     t0 = time.time()
     p = subprocess.run(argv, cwd=ROOT, env=env, stdout=subprocess.PIPE, stderr=subprocess.PIPE)
     log(f"[build] miri {pkg}/{bin_} -> rc={p.returncode} in {time.time() - t0:.1f}s")
@@ -143,7 +150,7 @@ def jsonable(x):
 class SeqPlan:
     level = "exploration"
 
-    def __init__(self, prop, profiles, rigs, quick, thorough, miri_quick=0, miri_thorough=0, floor_ops=20000, what="", miri_profile=None, asan_thorough=False, miri_ops=70):
+    def __init__(self, prop, profiles, rigs, quick, thorough, miri_quick=0, miri_thorough=0, floor_ops=20000, what="", miri_profile=None, asan_thorough=False, miri_ops=70, miri_flags="", tsan_thorough=False):
         self.prop = prop
         self.profiles = profiles
         self.rigs = rigs
@@ -156,6 +163,8 @@ class SeqPlan:
         self.miri_profile = miri_profile or profiles[0]
         self.asan_thorough = asan_thorough
         self.miri_ops = miri_ops
+        self.miri_flags = miri_flags
+        self.tsan_thorough = tsan_thorough
         self.assumptions = [
             "the reference model in bvh/src/model.rs (a BTreeMap from identifier to component values) is the intended semantics of World",
             "payload components identify themselves (type tag, instance id, checksum); values written are unique per world so a read identifies the write it saw",
@@ -168,7 +177,7 @@ class SeqPlan:
         ok, msg = cargo_build(pkgs, ctx.log)
         if not ok:
             return ok, msg
-        n_miri = self.miri_quick if ctx.tier == "quick" else self.miri_thorough
+        n_miri = 0 if NO_MIRI else (self.miri_quick if ctx.tier == "quick" else self.miri_thorough)
         if n_miri:
             for r in self.miri_rigs():
                 ok, msg = miri_warm(RIG_PKG[r], r, ctx.log)
@@ -206,7 +215,7 @@ class SeqPlan:
                     )
                 )
                 n += 1
-        n_miri = self.miri_quick if ctx.tier == "quick" else self.miri_thorough
+        n_miri = 0 if NO_MIRI else (self.miri_quick if ctx.tier == "quick" else self.miri_thorough)
         mrigs = self.miri_rigs()
         for s in range(n_miri):
             rig = mrigs[s % len(mrigs)]
@@ -217,9 +226,9 @@ class SeqPlan:
                     name=f"miri-{rig}-{s}",
                     kind="miri",
                     rig=rig,
-                    argv=["cargo", "+nightly", "miri", "run", "--offline", "-q", "-p", RIG_PKG[rig], "--bin", rig, "--", "seq", "--profile", self.miri_profile, "--seed", str(ctx.seed * 7919 + s), "--histories", "1",
+                    argv=["cargo", "+nightly", "miri", "run", "--offline", "-q"] + CARGO_CONFIG + ["-p", RIG_PKG[rig], "--bin", rig, "--", "seq", "--profile", self.miri_profile, "--seed", str(ctx.seed * 7919 + s), "--histories", "1",
                           "--ops", str(mops), "--max-entities", "10", "--check-every", "4", "--shrink", "0", "--out", out],
-                    env={"MIRIFLAGS": MIRIFLAGS, "CARGO_TARGET_DIR": MIRI_TARGET},
+                    env={"MIRIFLAGS": (MIRIFLAGS + " " + self.miri_flags).strip(), "CARGO_TARGET_DIR": MIRI_TARGET},
                     out=out,
                     timeout=1500 if ctx.tier == "quick" else 5400,
                 )
@@ -233,7 +242,7 @@ class SeqPlan:
                         name=f"asan-{rig}-{s}",
                         kind="asan",
                         rig=rig,
-                        argv=[os.path.join(ROOT, "target", "asan", "x86_64-unknown-linux-gnu", "release", rig), "seq", "--profile", self.miri_profile, "--seed", str(ctx.seed * 104729 + s), "--histories", "200", "--ops", "400", "--shrink", "0", "--out", out],
+                        argv=[os.path.join(TARGET, "asan", "x86_64-unknown-linux-gnu", "release", rig), "seq", "--profile", self.miri_profile, "--seed", str(ctx.seed * 104729 + s), "--histories", "200", "--ops", "400", "--shrink", "0", "--out", out],
                         env={"ASAN_OPTIONS": "detect_leaks=1:halt_on_error=1:abort_on_error=0:exitcode=77", "LSAN_OPTIONS": "exitcode=78"},
                         out=out,
                         timeout=5400,
@@ -344,7 +353,7 @@ class SeqPlan:
         return dict(verdict=verdict, reason=reason, violations=fresh, known=known_hit, notes=dedupe(notes), coverage=coverage, replay=replay_path)
 
     def save_replay(self, ctx, job, replay):
-        os.makedirs(os.path.join(ROOT, "replays"), exist_ok=True)
+        os.makedirs(REPLAYS, exist_ok=True)
         path = os.path.join(ROOT, "replays", f"{self.prop}-{job['rig']}-{replay.get('seed', 0)}.json")
         replay = dict(replay)
         replay["kind"] = "seq"
@@ -354,14 +363,14 @@ class SeqPlan:
         return path
 
     def save_cmd_replay(self, ctx, job, r):
-        os.makedirs(os.path.join(ROOT, "replays"), exist_ok=True)
+        os.makedirs(REPLAYS, exist_ok=True)
         path = os.path.join(ROOT, "replays", f"{self.prop}-{job['name']}.json")
         with open(path, "w") as f:
             json.dump(dict(kind="cmd", cmd=job["argv"], env=job.get("env", {}), rc=str(r["rc"]), stderr_tail=tail(r["stderr"], 60)), f)
         return path
 
     def save_note_replay(self, ctx, v):
-        os.makedirs(os.path.join(ROOT, "replays"), exist_ok=True)
+        os.makedirs(REPLAYS, exist_ok=True)
         path = os.path.join(ROOT, "replays", f"{self.prop}-note.json")
         with open(path, "w") as f:
             json.dump(dict(kind="note", violation=v), f)
@@ -370,12 +379,12 @@ class SeqPlan:
 
 def asan_build(pkgs, log):
     env = {"RUSTFLAGS": "--cfg brood_verif --cfg bvh_notrack -Zsanitizer=address -Cforce-frame-pointers=yes"}
-    argv = ["cargo", "+nightly", "build", "--offline", "--release", "--target", "x86_64-unknown-linux-gnu"]
+    argv = ["cargo", "+nightly", "build", "--offline", "--release", "--target", "x86_64-unknown-linux-gnu"] + CARGO_CONFIG
     for p in pkgs:
         argv += ["-p", p]
     e = base_env()
     e.update(env)
-    e["CARGO_TARGET_DIR"] = os.path.join(ROOT, "target", "asan")
+    e["CARGO_TARGET_DIR"] = os.path.join(TARGET, "asan")
     t0 = time.time()
     p = subprocess.run(argv, cwd=ROOT, env=e, stdout=subprocess.PIPE, stderr=subprocess.PIPE)
     log(f"[build] asan {' '.join(pkgs)} -> rc={p.returncode} in {time.time() - t0:.1f}s")
@@ -545,7 +554,7 @@ class ToolPlan:
 
 
 def save_cmd_replay(prop, job, r):
-    os.makedirs(os.path.join(ROOT, "replays"), exist_ok=True)
+    os.makedirs(REPLAYS, exist_ok=True)
     path = os.path.join(ROOT, "replays", f"{prop}-{job['name']}.json")
     with open(path, "w") as f:
         json.dump(dict(kind="cmd", cmd=job["argv"], env=job.get("env", {}), rc=str(r["rc"]), stderr_tail=tail(r["stderr"], 60)), f)
@@ -553,7 +562,7 @@ def save_cmd_replay(prop, job, r):
 
 
 def save_violation_replay(prop, job, v, rep):
-    os.makedirs(os.path.join(ROOT, "replays"), exist_ok=True)
+    os.makedirs(REPLAYS, exist_ok=True)
     path = os.path.join(ROOT, "replays", f"{prop}-{job['name']}.json")
     with open(path, "w") as f:
         json.dump(dict(kind="cmd" if job.get("argv") else "note", cmd=job.get("argv", []), env=job.get("env", {}), violation=v, replay=rep.get("replay")), f)
@@ -582,6 +591,9 @@ PLANS = {
                    what="allocator audit (layout of every dealloc/realloc, double free, unknown free, bytes returned at end of history), self-checking payloads (tag, checksum, alignment, heap bytes), Miri (OOB, dangling, uninit, invalid value, layout, leak), ASan/LSan in thorough"),
     "C06": SeqPlan("C06", ["serde"], ALL_RIGS, quick=(5, 120, 300), thorough=(8, 1500, 400), miri_quick=4, miri_thorough=16, miri_profile="serde", miri_ops=30,
                    what="serde_json (row-wise) and serde_assert tokens (readable + compact/column-wise) round trips at random points: ==, structure dump, then lock-step continuation of original and copy with return values compared"),
+    "C09": SeqPlan("C09", ["par"], ["r5", "r9", "r1"], quick=(6, 100, 250), thorough=(8, 1200, 300), miri_quick=6, miri_thorough=24, miri_profile="par", miri_ops=40, miri_flags="-Zmiri-ignore-leaks", floor_ops=20000,
+                   what="par_query (for_each, map+collect, count, any, find_map_any), run_par_system and run_system over the generated view/filter family on rayon pools of 1/2/3/4/8/16 threads with jitter: multiset of results vs model (= sequential query), "
+                        "each entity once, no two results sharing a mutably viewed address, writes land on that entity only; same code under Miri's data-race detector"),
     "C10": SeqPlan("C10", ["clone"], ALL_RIGS, quick=(5, 120, 300), thorough=(8, 1500, 400), miri_quick=4, miri_thorough=16, miri_profile="clone",
                    what="clone()/clone_from() between independently grown worlds: equality, per-table content, no shared allocation, then divergent histories on both sides with every other oracle on"),
     "C13": SeqPlan("C13", ["general", "aba", "serde", "clone"], ALL_RIGS, quick=(6, 120, 300), thorough=(8, 1500, 400), miri_quick=0, miri_thorough=8,
